@@ -20,6 +20,13 @@ CLAIMS = {
          "suboptimal (so quickbb's search is exercised) extend it. Exhaustive within the bound only.",
          "Trusted: vf/oracle_graph.py (self-checked on known treewidths), Hypothesis. Fresh argument copy per call.",
          "DESIGN.md section 5, C10"),
+ 'C01': ("Hypothesis-generated non-recursive grammar specs vs. independent numpy grammar evaluator (differential oracle), all semirings/dtypes/methods",
+         "Generated non-recursive FGGs covering every edge shape the statement lists (measured class histogram in the evidence) are "
+         "evaluated by sum_product/sum_products/singleton_fgg in sampled semiring x dtype x method x j_precompute configurations and "
+         "compared entrywise with an evaluator written from the definition (all assignments of all rhs nodes, 0*inf=0), which is itself "
+         "cross-checked against explicit derivation enumeration + brute-force summation at start-up. Sampled, bounded sizes; no proof.",
+         "Trusted: vf/oracle_fgg.py NumEval (self-checked against O6), numpy, Hypothesis; tolerances rtol 1e-9/1e-4, inf and zero exact.",
+         "DESIGN.md section 5, C01"),
 }
 
 NOT_YET = {}   # id -> reason (filled while the framework is being built)
